@@ -175,7 +175,18 @@ def render(spec, style, name):
                 es, s_, d_, g_ = mine[0]
                 body.append("    " + tr(((e,), s_, d_, g_), "str"))
                 mine = mine[1:]
-            chain = " | ".join(tr(((e,), t[1], t[2], t[3])) for t in mine)
+            if style == "from_multi":
+                parts, k = [], 0
+                while k < len(mine):
+                    grp = [mine[k]]
+                    while k + 1 < len(mine) and (mine[k + 1][2], mine[k + 1][3]) == (mine[k][2], mine[k][3]) and mine[k + 1][1] not in [g[1] for g in grp]:
+                        k += 1
+                        grp.append(mine[k])
+                    parts.append(f"{P}{grp[0][2]}.from_(" + ", ".join(f"{P}{g[1]}" for g in grp) + guard_kw(grp[0][3]) + ")")
+                    k += 1
+                chain = " | ".join(parts)
+            else:
+                chain = " | ".join(tr(((e,), t[1], t[2], t[3])) for t in mine)
             if style == "decorator":
                 # `@<transitions> def <event>(self): ...` declares the event; the function is its `on` action
                 body += [f"    @({chain})", f"    def {e}(self):", f"        self.trace.append('on_{e}')"]
@@ -192,11 +203,15 @@ def render(spec, style, name):
     cls = [f"class {name}(StateMachine):"] + body + callbacks_src(spec, decorators=(style == "decorator"), state_params=(style == "state_params"))
     if style == "subclass":
         cls = [f"class Base_{name}(StateMachine):"] + body + callbacks_src(spec) + ["", f"class {name}(Base_{name}):", "    pass"]
+    if style == "subclass_mixin":
+        # a plain mixin listed BEFORE the machine base: everything is still inherited from the base
+        cls = [f"class Base_{name}(StateMachine):"] + body + callbacks_src(spec) + [
+            "", f"class Mix_{name}:", "    helper_flag = True", "", f"class {name}(Mix_{name}, Base_{name}):", "    pass"]
     return "\n".join(L + cls) + "\n"
 
 
-STYLES = ["plain", "from_", "event_str", "event_list", "event_list_overlap", "states_first", "events_first", "mixed", "mixed_inline", "decorator", "state_params", "itself",
-          "enum", "intenum", "states_dict", "subclass", "any"]
+STYLES = ["plain", "from_", "from_multi", "event_str", "event_list", "event_list_overlap", "states_first", "events_first", "mixed", "mixed_inline", "decorator", "state_params", "itself",
+          "enum", "intenum", "states_dict", "subclass", "subclass_mixin", "any"]
 
 
 def observe(cls, seqs):
